@@ -318,8 +318,15 @@ fn check_path(rep: &mut Report, s: &str, prior: Option<&str>) {
         if let Some(p) = prior {
             q.set_path(p);
         }
-        // unrelated options must survive
+        // unrelated options must survive - and must not leak into the path: other options that carry
+        // URI parts or paths of their own (Proxy-Uri, Uri-Host, Location-Path) ride along half of the time
         q.message.add_option(CoapOption::UriQuery, b"x=1".to_vec());
+        if (s.len() + prior.map(|p| p.len()).unwrap_or(0)) % 2 == 0 {
+            q.message.add_option(CoapOption::ProxyUri, b"coap://example.org/sensors/temp?unit=c".to_vec());
+            q.message.add_option(CoapOption::UriHost, b"example.org".to_vec());
+            q.message.add_option(CoapOption::LocationPath, b"elsewhere".to_vec());
+            q.message.add_option(CoapOption::ProxyScheme, b"coap".to_vec());
+        }
         q.set_path(s);
         let raw: Vec<Vec<u8>> = q.message.get_option(CoapOption::UriPath).map(|l| l.iter().cloned().collect()).unwrap_or_default();
         let query = q.message.get_option(CoapOption::UriQuery).map(|l| l.len());
@@ -471,6 +478,22 @@ fn paths(rep: &mut Report, level: u32, shard: u64, nshards: u64, r: &mut Rng, bu
         other => rep.violation("path-non-utf8", format!("{:?}", other.map_err(|p| p.text())), "Uri-Path fffe".into()),
     }
     // no path at all
+    for proxy in ["coap://example.org/sensors/temp?unit=c", "coap://h/a", "http://[::1]:80/x/y#f", "/just/a/path", "coap://h"] {
+        rep.eval();
+        let res = guard(|| {
+            let mut q: Req = CoapRequest::new();
+            q.message.add_option(CoapOption::ProxyUri, proxy.as_bytes().to_vec());
+            q.message.add_option(CoapOption::LocationPath, b"loc".to_vec());
+            let before = (q.get_path(), q.get_path_as_vec());
+            q.set_path("");
+            let after = (q.get_path(), q.get_path_as_vec().map(|v| v.into_iter().filter(|s| !s.is_empty()).collect::<Vec<_>>()));
+            (before, after)
+        });
+        match res {
+            Ok(((b, bv), (a2, av))) if b.is_empty() && bv == Ok(vec![]) && a2.is_empty() && av == Ok(vec![]) => rep.count("path_ignores_other_uri_options"),
+            other => rep.violation("path-reads-other-options", format!("a request without Uri-Path but with Proxy-Uri {:?}: (get_path, get_path_as_vec) before / after set_path(\"\") = {:?}", proxy, other.map_err(|p| p.text())), format!("Proxy-Uri {:?}", proxy)),
+        }
+    }
     rep.eval();
     let q: Req = CoapRequest::new();
     if q.get_path() != "" || q.get_path_as_vec() != Ok(vec![]) {
